@@ -73,6 +73,23 @@ theorem setuser_updates_in_place (a : AclState) (name : Bytes) (rest : List Byte
   simp only [hf]
   split <;> simp
 
+def tbl : AclState :=
+  { heap := [(1, { name := b "default", noPass := false, passwords := [⟨false, b "pw"⟩] }),
+             (2, { name := b "alice", passwords := [⟨true, b "abc123"⟩] })],
+    order := [1, 2], conns := [(7, ⟨false, 1⟩)], requirePass := true }
+
+/-- **A disabled user can no longer act** (1): ACL SETUSER name … off on an existing user leaves that user object
+    disabled, whatever rules precede the `off` — and by `setuser_updates_in_place` it is the object every open
+    connection of that user points at. (2) `Props.C06.switched_off_user_refused`: the gate then refuses every
+    command of those connections; (3) `auth_iff`: no connection can authenticate as that user any more. -/
+theorem setuser_off_disables (a : AclState) (name : Bytes) (rules : List Bytes) (uid : Nat)
+    (hf : a.find name = some uid) (hok : (setUser a (name :: (rules ++ [b "off"]))).2 = .ok) :
+    ((setUser a (name :: (rules ++ [b "off"]))).1.get uid).enabled = false :=
+  setUser_off_disables a name rules uid hf hok
+
+/-- non-vacuity: switching alice off succeeds on the table below and disables her -/
+example : (setUser tbl [b "alice", b "off"]).2 = .ok ∧ ((setUser tbl [b "alice", b "off"]).1.get 2).enabled = false := by decide
+
 /-- the victim chosen by DELUSER is never the default user -/
 theorem delStep_spares_default (st : AclState × Option Bytes) (name : Bytes) (hs : st.2 ≠ some (b "default")) :
     (delStep st name).2 ≠ some (b "default") ∧
@@ -132,11 +149,6 @@ theorem deluser_spares_default (a : AclState) (names : List Bytes) (i : Nat)
     rw [h3]; exact hd
 
 /-! ### witnesses -/
-
-def tbl : AclState :=
-  { heap := [(1, { name := b "default", noPass := false, passwords := [⟨false, b "pw"⟩] }),
-             (2, { name := b "alice", passwords := [⟨true, b "abc123"⟩] })],
-    order := [1, 2], conns := [(7, ⟨false, 1⟩)], requirePass := true }
 
 /-- non-vacuity: AUTH alice with a password whose digest is stored succeeds, a wrong one fails -/
 example : (authenticate tbl 7 [b "auth", b "alice", b "secret"] (b "abc123")).2 = .ok ∧
